@@ -555,6 +555,8 @@ make_converter(K7)
 def body_k7_init_false(path: int, n: int, i: int, j: int) -> int:
     """init=False fields take their default / a fresh product of their default factory on every path (constructor by keyword, by position, mapping data, sequence data), and the instance is usable (repr, ==, dict)"""
     kw = {}
+    i = cint(i)          # (repr() below realises symbolic ints: concrete classes)
+    j = cint(j)
     if n >= 1:
         kw['x'] = i
     if n >= 2:
